@@ -186,12 +186,18 @@ def include_docs(ctx, res):
     s.db.y = cc.IntField()
     s.db.include = cc.IncludeField(startdir=tmp)
     s.db.deep.z = cc.IntField()
+    s.db.deep.include = cc.IncludeField(startdir=tmp)
+    s.db.deep.tls.include = cc.IncludeField(startdir=tmp)
     with open(os.path.join(tmp, "bad.json"), "w") as fh:
         fh.write("{not json")
     docs = [({"include": 5}, "include"), ({"include": "missing.json"}, "include"), ({"include": "sub"}, "include"), ({"include": ["f.txt"]}, "include"),
             ({"db": {"include": "missing.json"}}, "db.include"), ({"db": {"include": 7}}, "db.include"),
             ({"db": "abc"}, "db"), ({"db": [1]}, "db"), ({"db": 5}, "db"), ({"db": {"deep": "abc"}}, "db.deep"), ({"db": {"deep": [1]}}, "db.deep"),
-            ({"include": "bad.json"}, "include")]
+            ({"include": "bad.json"}, "include"),
+            ({"db": {"deep": {"include": "missing.json"}}}, "db.deep.include"), ({"db": {"deep": {"include": 9}}}, "db.deep.include"),
+            ({"db": {"deep": {"include": "bad.json"}}}, "db.deep.include"),
+            ({"db": {"deep": {"tls": {"include": "missing.json"}}}}, "db.deep.tls.include"), ({"db": {"deep": {"tls": {"include": ["x"]}}}}, "db.deep.tls.include"),
+            ({"db": {"deep": {"tls": "abc"}}}, "db.deep.tls")]
     for tree, want in docs:
         for fmt in ["json", "yaml", "bson", "xml", "pickle"]:
             doc = cc.ConfigFormat.get(fmt).dumps(None, tree)
@@ -243,7 +249,9 @@ def container_path_stream(ctx, res, n):
         nsrv = rng.randint(1, 3)
         h.servers = [{"name": "s%d" % j, "net": {"host": "h"}} for j in range(nsrv)]
         pre = ".".join(prefix) + ("." if prefix else "")
-        what = rng.choice(["item-default-dict", "ctype-default-dict", "appended-ctype-dict", "cfg-object-append", "cfg-object-assign", "tuple-key", "tuple-key-load"])
+        holder.quota2 = Quota
+        what = rng.choice(["item-default-dict", "ctype-default-dict", "appended-ctype-dict", "cfg-object-append", "cfg-object-assign", "tuple-key", "tuple-key-load",
+                           "after-earlier-item-deleted", "after-attach", "moved-between-fields"])
         key = rng.choice(["cpu", "mem"])
         how = rng.choice(["set", "update", "ior", "setdefault"])
 
@@ -285,6 +293,43 @@ def container_path_stream(ctx, res, n):
                     h.servers = items
                 else:
                     c[pre + "servers"] = items
+            elif what == "after-earlier-item-deleted" and nsrv >= 2:
+                j = rng.randrange(1, nsrv)
+                item = h.servers[j]
+                try:
+                    put(item.limits, key, "lots")                 # a first rejection, at the old position
+                except ValidationError:
+                    pass
+                del h.servers[0]
+                if rng.random() < 0.5:
+                    want = "%sservers[%d].limits[%s]" % (pre, j - 1, key)
+                    put(item.limits, key, "lots")
+                else:
+                    want = "%sservers[%d].name" % (pre, j - 1)
+                    item.name = 5
+            elif what == "after-attach":
+                q = Quota()
+                try:
+                    put(q.limits, key, "lots")                    # a first rejection while the object stands alone
+                except ValidationError:
+                    pass
+                h.quotas.append(Quota())
+                h.quotas.append(q)
+                want = "%squotas[1].limits[%s]" % (pre, key)
+                put(q.limits, key, "lots")
+            elif what == "moved-between-fields":
+                c2 = s()
+                h2 = c2
+                for p in prefix:
+                    h2 = h2[p]
+                inst = h.quota                                    # held under `quota` in one configuration ...
+                try:
+                    put(inst.limits, key, "lots")
+                except ValidationError:
+                    pass
+                h2.quota2 = inst                                  # ... and now under `quota2` in another
+                want = "%squota2.limits[%s]" % (pre, key)
+                put(h2.quota2.limits, key, "lots")
             elif what == "tuple-key":
                 tk = rng.choice([(1, 2), (), (7,), ("a", 1, None)])
                 want = "%scells[%s]" % (pre, tk)
